@@ -3686,7 +3686,16 @@ first_iteration:
 		owned += dq->dq_width * DISPATCH_QUEUE_WIDTH_INTERVAL;
 	}
 	if (dc) {
-		owned = _dispatch_queue_adjust_owned(dq, owned, dc);
+		// A failed upgrade to the full width gave `owned` back and left the
+		// PENDING_BARRIER reservation in dq_state. If the drain lock was then
+		// renewed (DIRTY) and this drain stopped again before retrying the
+		// upgrade (suspension, retarget, narrowing), the reservation for that
+		// barrier is already accounted for: reserving a second time would
+		// carry PENDING_BARRIER into the width field and wedge the queue.
+		if (likely(owned || !_dq_state_has_pending_barrier(
+				os_atomic_load2o(dq, dq_state, relaxed)))) {
+			owned = _dispatch_queue_adjust_owned(dq, owned, dc);
+		}
 	}
 	*owned_ptr &= DISPATCH_QUEUE_ENQUEUED | DISPATCH_QUEUE_ENQUEUED_ON_MGR;
 	*owned_ptr |= owned;
